@@ -12,6 +12,9 @@ Obligations (Apalache, chains of up to 6 secrets, arbitrary state satisfying Ind
 Controls that must FAIL: Sanity1 (the generated states are not trivial), SanityAct (action properties are
 evaluated), and Post for the variant "stale_kept" (the defect repaired by c766bd3).
 
+C16 / C19 for all schedules and any number of calls: spec/RngInd.tla (values drawn from the generator under its
+mutex are never handed out twice), same scheme; control variant "clone" (draw from a copy taken outside the mutex).
+
 C06 for all histories of one right: spec/FlagInd.tla (activation flag of the newest secret under disable /
 update / rekey / prune / mpk), same scheme; control variant "rekey_reactivates" (repaired by c136dfc)."""
 import os
@@ -42,12 +45,23 @@ FLAG_OBLIGATIONS = [
     ("control: the defect repaired by c136dfc (rekey re-activates) breaks the invariant", "CReact", "IndInit", "IndInv", 1, False),
 ]
 
+RNG_OBLIGATIONS = [
+    ("base: Init => IndInv", "CFixed", "Init", "IndInv", 0, True),
+    ("step: IndInv /\\ Next => IndInv'", "CFixed", "IndInit", "IndInv", 1, True),
+    ("C16: the values a lock section hands out were never handed out before, to any thread", "CFixed", "IndInit", "NewFresh", 1, True),
+    ("control: the generated states are not trivial", "CFixed", "IndInit", "Sanity", 0, False),
+    ("control: drawing from a copy of the generator outside the mutex (seeded changes C19-encaps-clone-rng, "
+     "C16-encrypt-nonce-from-rng-clone) hands a value out twice", "CClone", "Init", "NewFresh", 6, False),
+]
+
 MODULES = {
     # name -> (module, Apalache wrapper, obligations, TLC invariants, TLC property, control variant)
     "ChainInd": ("ChainInd.tla", "ChainIndA.tla", CHAIN_OBLIGATIONS, ["IndInv", "Post"], "StepOk", "stale_kept"),
     "FlagInd": ("FlagInd.tla", "FlagIndA.tla", FLAG_OBLIGATIONS, ["IndInv", "NeverAgain"], None, "rekey_reactivates"),
+    "RngInd": ("RngInd.tla", "RngIndA.tla", RNG_OBLIGATIONS, ["IndInv"], "StepOk", "clone"),
 }
-FOR_PROP = {"C04": ["ChainInd"], "C05": ["ChainInd"], "C06": ["FlagInd"]}
+EXTRA_CONSTANTS = {"RngInd": "CONSTANT Threads = {1, 2}\n"}
+FOR_PROP = {"C04": ["ChainInd"], "C05": ["ChainInd"], "C06": ["FlagInd"], "C16": ["RngInd"], "C19": ["RngInd"]}
 
 
 def apalache(wd, wrapper, cinit, init, inv, length, timeout=600):
@@ -84,7 +98,7 @@ def run(name, wd, tier):
 
     def tlc_run(variant):
         with open(cfg, "w") as f:
-            f.write(f'SPECIFICATION Spec\nCONSTANT Variant = "{variant}"\nCONSTRAINT Bounded\n'
+            f.write(f'SPECIFICATION Spec\nCONSTANT Variant = "{variant}"\n' + EXTRA_CONSTANTS.get(name, "") + 'CONSTRAINT Bounded\n'
                     + "".join(f"INVARIANT {i}\n" for i in invs)
                     + (f"PROPERTY {prop_}\n" if prop_ else "") + "CHECK_DEADLOCK FALSE\n")
         return tlc(os.path.join(SPEC, module), cfg, wd, workers=2, timeout=300)
